@@ -70,15 +70,35 @@ Theorem C05_as_many_params_as_declared :
 Proof. exact bind_length. Qed.
 Print Assumptions C05_as_many_params_as_declared.
 
+(* the prologue with explicit targets (a variable of a longer-lived object, the same local variable
+   twice): every declared parameter is STORED - the next argument, or NIL when none is left - also
+   when its target already holds a value *)
+Theorem C05_a_parameter_without_argument_is_reset_to_nil :
+  forall k tg loc lv, prologue (PLev k :: tg) [] loc lv = prologue tg [] loc (lset k DNil lv).
+Proof. exact prologue_resets. Qed.
+Print Assumptions C05_a_parameter_without_argument_is_reset_to_nil.
+
+Theorem C05_a_repeated_parameter_keeps_the_last_store :
+  forall j a loc lv,
+    read_target (fst (prologue [PLoc j; PLoc j] [a] loc lv)) (snd (prologue [PLoc j; PLoc j] [a] loc lv)) (PLoc j) = DNil.
+Proof. exact prologue_dup. Qed.
+Print Assumptions C05_a_repeated_parameter_keeps_the_last_store.
+
+Theorem C05_a_level_parameter_reads_what_its_last_declaration_stored :
+  forall k tg args loc lv, ~ In (PLev k) tg ->
+    lget N.eqb k (snd (prologue tg args loc lv)) = lget N.eqb k lv.
+Proof. exact prologue_last_level. Qed.
+Print Assumptions C05_a_level_parameter_reads_what_its_last_declaration_stored.
+
 (* ---------------------------------------------------------------- label not found *)
 
 (* label_not_found_leaves_nothing, from ANY state: the scheduler, every cell and registry, the
    live VMs, the variables, the temporaries and the script instances are unchanged; the only
    new thing is the host's own record holding its arguments *)
 Theorem C05_label_not_found_leaves_nothing :
-  forall sc (m : mheap) np prog args,
-    let st' := fst (m_step (sc, m) (OCall false np prog args)) in
-    let ob := snd (m_step (sc, m) (OCall false np prog args)) in
+  forall sc (m : mheap) np pt prog args,
+    let st' := fst (m_step (sc, m) (OCall false np pt prog args)) in
+    let ob := snd (m_step (sc, m) (OCall false np pt prog args)) in
     let h := fst m in let h' := fst (snd st') in
     fst st' = sc /\ snd (snd st') = snd m /\ hc h' = hc h /\ vms h' = vms h /\ locs h' = locs h /\
     tcall h' = tcall h /\ tmps h' = tmps h /\
@@ -89,8 +109,8 @@ Proof. exact label_not_found_leaves_nothing. Qed.
 Print Assumptions C05_label_not_found_leaves_nothing.
 
 Theorem C05_label_not_found_leaves_nothing_in_the_specification :
-  forall sc s np prog args,
-    let st' := fst (s_step (sc, s) (OCall false np prog args)) in
+  forall sc s np pt prog args,
+    let st' := fst (s_step (sc, s) (OCall false np pt prog args)) in
     fst st' = sc /\ alive (snd st') = alive s /\ done (snd st') = done s /\ slocs (snd st') = slocs s /\
     srecs (snd st') = srecs s ++ [(snrec s, mkSRec args None)].
 Proof. exact label_not_found_spec. Qed.
@@ -102,9 +122,9 @@ Print Assumptions C05_label_not_found_leaves_nothing_in_the_specification.
    returns with the thread gone and the value d of r (a literal or a parameter) as the last
    element of the record (no element when d is NIL) *)
 Theorem C05_result_sync :
-  forall ops np r args, r <> RLocal ->
+  forall ops np r args, r <> RLocal -> (forall k, r <> RLevel k) ->
     let d := eval_res (bind np args) r in
-    let ob := obs_after ops (OCall true np [mkLevel [] [] (FEnd r)] args) in
+    let ob := obs_after ops (OCall true np [] [mkLevel [] [] (FEnd r)] args) in
     ocall ob = COk false (bind np args) /\
     exists pre k, orecs ob = pre ++ [(k, map TD args ++ slot_toks d)].
 Proof. exact result_sync. Qed.
@@ -417,7 +437,7 @@ Definition one (steps : list step) (f : fin) : list level := [mkLevel [] steps f
    Shown per operation: call outcome, last element of every record, instances, threads. *)
 Example C05_async_timed_waits_with_copies :
   map view (run [
-    OCall true 2 (one [SWait 1; SWait 2] (FEnd (RArg 1))) [DData 0 3; DData 2 1; DData 1 0];
+    OCall true 2 [] (one [SWait 1; SWait 2] (FEnd (RArg 1))) [DData 0 3; DData 2 1; DData 1 0];
     OCopy 0; OAdvance 1; OExecute; OReserve 0; OCopy 1; OAdvance 1; OExecute; OAdvance 1; OExecute ]) =
   [ (COk true [DData 0 3; DData 2 1], [TPend], 1%nat, 1%nat);
     (CNone, [TPend; TPend], 1%nat, 1%nat);
@@ -440,11 +460,11 @@ Proof. vm_compute. reflexivity. Qed.
    0 is resumed and its value arrives in record 4. *)
 Example C05_pause_kill_nolabel_sync_move :
   map view (run [
-    OCall true 0 (one [SPause 2] (FEnd (RLit (DData 5 1)))) [];
-    OCall true 1 (one [] (FKill 1)) [DData 4 2];
-    OCall false 3 (one [] (FEnd (RLit (DData 0 1)))) [DData 0 1; DNil];
-    OCall true 3 (one [] (FEnd (RArg 3))) [DData 0 1];
-    OCall true 1 (one [] (FEnd (RArg 1))) [DData 4 0; DData 0 1];
+    OCall true 0 [] (one [SPause 2] (FEnd (RLit (DData 5 1)))) [];
+    OCall true 1 [] (one [] (FKill 1)) [DData 4 2];
+    OCall false 3 [] (one [] (FEnd (RLit (DData 0 1)))) [DData 0 1; DNil];
+    OCall true 3 [] (one [] (FEnd (RArg 3))) [DData 0 1];
+    OCall true 1 [] (one [] (FEnd (RArg 1))) [DData 4 0; DData 0 1];
     OMoveAssign 4 0;
     OAdvance 1; OExecute; OAdvance 1; OExecute ]) =
   [ (COk true [], [TPend], 1%nat, 2%nat);
@@ -469,11 +489,11 @@ Proof. vm_compute. reflexivity. Qed.
    time 5 the end of the chain arrives in record 2. *)
 Example C05_forwarded_results :
   map view (run [
-    OCall true 0 [mkLevel [SWait 1] [] (FEnd RLocal); mkLevel [] [SWait 2] (FEnd (RLit (DData 0 7)))] [];
+    OCall true 0 [] [mkLevel [SWait 1] [] (FEnd RLocal); mkLevel [] [SWait 2] (FEnd (RLit (DData 0 7)))] [];
     OCopy 0;
-    OCall true 0 [mkLevel [] [SWait 3] (FEnd RLocal); mkLevel [] [SWait 1] (FEnd RLocal);
+    OCall true 0 [] [mkLevel [] [SWait 3] (FEnd RLocal); mkLevel [] [SWait 1] (FEnd RLocal);
                   mkLevel [SWait 5] [] (FEnd (RLit (DData 2 1)))] [];
-    OCall true 0 [mkLevel [] [] (FEnd RLocal); mkLevel [] [] (FKill 2)] [];
+    OCall true 0 [] [mkLevel [] [] (FEnd RLocal); mkLevel [] [] (FKill 2)] [];
     OAdvance 1; OExecute; OCopy 0; OAdvance 1; OExecute; OAdvance 1; OExecute; OAdvance 2; OExecute ]) =
   [ (COk true [], [TPend], 1%nat, 1%nat);
     (CNone, [TPend; TPend], 1%nat, 1%nat);
@@ -497,8 +517,8 @@ Proof. vm_compute. reflexivity. Qed.
    the thread resumes at frame time 4 and its value arrives. *)
 Example C05_orders_to_parked_threads :
   map view (run [
-    OCall true 0 [mkLevel [] [SPark (Some 5) [(1, AWait 5); (1, ADelete)]] (FEnd (RLit (DData 0 1)))] [];
-    OCall true 0 [mkLevel [] [SPark None [(1, APause); (2, AWait 1)]] (FEnd (RLit (DData 0 2)))] [];
+    OCall true 0 [] [mkLevel [] [SPark (Some 5) [(1, AWait 5); (1, ADelete)]] (FEnd (RLit (DData 0 1)))] [];
+    OCall true 0 [] [mkLevel [] [SPark None [(1, APause); (2, AWait 1)]] (FEnd (RLit (DData 0 2)))] [];
     OCopy 0;
     OAdvance 1; OExecute; OAdvance 1; OExecute; OAdvance 1; OExecute; OAdvance 1; OExecute ]) =
   [ (COk true [], [TPend], 1%nat, 2%nat);
@@ -512,6 +532,24 @@ Example C05_orders_to_parked_threads :
     (CNone, [TD DNil; TPend; TD DNil], 1%nat, 1%nat);
     (CNone, [TD DNil; TPend; TD DNil], 1%nat, 1%nat);
     (CNone, [TD DNil; TD (DData 0 2); TD DNil], 0%nat, 0%nat) ].
+Proof. vm_compute. reflexivity. Qed.
+
+(* parameters that already hold a value.  `go level.q0 local.p2:` called with (1, 7) stores 1 in
+   level.q0; a later call of the same declaration with no argument must reset it to NIL (the call in
+   between and the one after read it with `end level.q0`); `go local.p1 local.p1:` with one argument
+   ends with local.p1 = NIL. *)
+Example C05_parameters_that_already_hold_a_value :
+  map view (run [
+    OCall true 2 [PLev 0; PLoc 2] (one [] (FEnd (RArg 2))) [DData 0 1; DData 0 7];
+    OCall true 0 [] (one [] (FEnd (RLevel 0))) [];
+    OCall true 2 [PLev 0; PLoc 2] (one [] (FEnd (RArg 2))) [];
+    OCall true 0 [] (one [] (FEnd (RLevel 0))) [];
+    OCall true 2 [PLoc 1; PLoc 1] (one [] (FEnd (RArg 1))) [DData 0 3] ]) =
+  [ (COk false [DData 0 1; DData 0 7], [TD (DData 0 7)], 0%nat, 0%nat);
+    (COk false [], [TD (DData 0 7); TD (DData 0 1)], 0%nat, 0%nat);
+    (COk false [DNil; DNil], [TD (DData 0 7); TD (DData 0 1); TDead], 0%nat, 0%nat);
+    (COk false [], [TD (DData 0 7); TD (DData 0 1); TDead; TDead], 0%nat, 0%nat);
+    (COk false [DNil; DNil], [TD (DData 0 7); TD (DData 0 1); TDead; TDead; TD (DData 0 3)], 0%nat, 0%nat) ].
 Proof. vm_compute. reflexivity. Qed.
 
 (* sensitivity of the invariant.  [protocol mc d] replays the call protocol on the bare cell heap
